@@ -95,8 +95,6 @@ def Node.replStep (n : Node) (m : Meta) (line : Bytes) : Node × Meta × LoopOut
           | none => (some m1, false)
         | _ => (none, true)
       let m' := wr.1.getD m
-      -- the id the copies travel under: the snapshot branch folds its writes from `Ok(0)` and keeps that 0
-      let opId := match req with | .replicateSnapshot _ _ => 0 | _ => opId
       match n.replSend wr.2 opId reqStr with
       | (n', out) => (n', m', out)
   | _ => (n, m, .panic b!"Unknown message")
